@@ -1,5 +1,5 @@
 """C12 -- kwoargs/posoargs/autokwoargs: advertised signature equals call behaviour."""
-from ..rules_modifiers import rule_prepare_table, rule_call_table, rule_forms
+from ..rules_modifiers import rule_prepare_table, rule_call_table, rule_forms, rule_anchor_getter_rederives
 
 EXPLANATION = (
     "Static analysis (decision-table conformance on enumerated paths; no execution). Decides the decoration-time and "
@@ -35,6 +35,7 @@ def run(check):
     from ..rules_modifiers import rule_bound_copy_selection
     check.run_rule('C12.R9', lambda c: rule_bound_copy_selection(c, 'C12.R9'))
     from ..rules_wrappers import rule_transparent_receiver
+    check.run_rule('C12.R11', lambda c: rule_anchor_getter_rederives(c, 'C12.R11'))
     check.run_rule('C12.R10', lambda c: rule_transparent_receiver(c, 'C12.R10', 'modifiers', ['_PokTranslator']))
     from ..rules_modifiers import rule_prepare_admissibility
     check.run_rule('C12.R1a', lambda c: rule_prepare_admissibility(c, 'C12.R1'))
